@@ -8,6 +8,7 @@ driver for the error-classification model (engine `errno`, C25)
   classify-orig <site> <cls> <arg0> <cutoff> <open> → the same for the ladders as found (D13, D26)
   classify2 <site> <cls> <arg0> <cutoff> <open>     → the same with fixes/D26b as well
   connect <code>                                    → accepted | reopenRetry | retry
+  gram <version> <entry> <id:dest,…> <ok|cls:arg0 …>  → `ok|raised sent=<id:dest,…> q=<id:dest,…>` (stack transmit entry points)
   region <finding> <site> <cls> <arg0>              → 1 | 0   (Lean region predicate of a known finding)
 -/
 namespace Ioflo.Drv.Errno
@@ -53,6 +54,37 @@ def doClassify (v : Version) (site cls n c o : String) : String :=
       ++ " | D26b=" ++ b01 (tlsNumberClash site e) ++ " D26c=" ++ b01 (handshakeLoss site e)
   | _, _, _, _, _ => "bad-op"
 
+def entry? : String → Option GramEntry
+  | "serviceTxPkts" => some .txPkts | "serviceTxPktsOnce" => some .txPktsOnce
+  | "serviceAllTx" => some .allTx | "serviceAllTxOnce" => some .allTxOnce | "serviceAll" => some .all
+  | _ => none
+
+/-- `id:dest,id:dest` (`.` = empty) -/
+def pkts? (w : String) : Option (List Pkt) :=
+  if w == "." then some [] else
+  (w.splitOn ",").foldr (fun e acc =>
+    match acc, e.splitOn ":" with
+    | some l, [a, b] => match a.toNat?, b.toNat? with
+      | some a, some b => some ((a, b) :: l)
+      | _, _ => none
+    | _, _ => none) (some [])
+
+/-- answers of the sendto calls: `ok` or `<cls>:<arg0>` -/
+def answers? (ws : List String) : Option (List (Option Err)) :=
+  ws.foldr (fun w acc =>
+    match acc with
+    | none => none
+    | some l =>
+      if w == "ok" then some (none :: l) else
+      match w.splitOn ":" with
+      | [c, n] => match cls? c, n.toNat? with
+        | some c, some n => some (some ⟨c, n⟩ :: l)
+        | _, _ => none
+      | _ => none) (some [])
+
+def showPkts (l : List Pkt) : String :=
+  if l.isEmpty then "." else ",".intercalate (l.map fun p => s!"{p.1}:{p.2}")
+
 def step (_ : Unit) (line : String) : Unit × String :=
   match words line with
   | ["errno", name] =>
@@ -62,6 +94,14 @@ def step (_ : Unit) (line : String) : Unit × String :=
   | ["classify", site, cls, n, c, o] => ((), doClassify .fixed site cls n c o)
   | ["classify-orig", site, cls, n, c, o] => ((), doClassify .orig site cls n c o)
   | ["classify2", site, cls, n, c, o] => ((), doClassify .fixed2 site cls n c o)
+  | "gram" :: ver :: entry :: pk :: ans =>
+    match (if ver == "fixed" then some Version.fixed else if ver == "fixed2" then some Version.fixed2
+           else if ver == "orig" then some Version.orig else none), entry? entry, pkts? pk, answers? ans with
+    | some v, some en, some q, some sc =>
+      match gramService v en q sc with
+      | .ok sent queue => ((), "ok sent=" ++ showPkts sent ++ " q=" ++ showPkts queue)
+      | .raised sent queue => ((), "raised sent=" ++ showPkts sent ++ " q=" ++ showPkts queue)
+    | _, _, _, _ => ((), "bad-op")
   | ["connect", code] =>
     match code.toNat? with
     | some c => ((), match connect c with
